@@ -99,6 +99,13 @@ def build() -> Check:
             if app:
                 bad.append(("a broken lock still enqueues the caller", t))
             continue
+        # the entry test of the broken flag and the enqueue form one atomic step (same hold of the inner lock)
+        entry_tests = [e for e in evs if e.kind == "DECIDE" and e.data["key"] == "truthy(lock._is_broken)"]
+        if entry_tests and app and not (under_lock(t, entry_tests[0]) and evs.index(entry_tests[0]) < evs.index(app[0])):
+            bad.append(("the broken flag is tested outside the lock hold that enqueues the caller: a lock broken in between leaves the caller "
+                        "queued behind dead waiters for ever", t))
+        if not entry_tests and app:
+            bad.append(("acquire enqueues without testing the broken flag", t))
         if len(app) != 1 or app[0].data["method"] != "append":
             bad.append((f"the caller is enqueued {len(app)}x via {[a.data['method'] for a in app]} (must be exactly one append at the tail)", t))
             continue
